@@ -78,6 +78,7 @@ type c04Cfg struct {
 	StaticKeys      bool // public-key files: the kid of a token plays no role
 	SkipNonce       bool
 	Redis           bool
+	AllowedGroups   []string // --allowed-group: the authorisation decision must follow the TOKEN's groups, element boundaries included
 	ExtraIss        string // issuer string of the extra JWT issuer of this configuration ("" = the second rig IdP)
 	BearerOnly      bool   // configuration differs from "disc" only on the bearer path
 	P               *vfProxy
@@ -132,6 +133,7 @@ func c04Configs(w *vfWorld, idp2 *vfIdP, thorough bool) []*c04Cfg {
 			c.Verifiers = append(c.Verifiers, c04Verifier{Issuer: idp2.Issuer, ClientID: c04ExtraAudience, Extra: true})
 		}, "--extra-jwt-issuers="+idp2.Issuer+"="+c04ExtraAudience),
 		mk("skip-nonce", func(c *c04Cfg) { c.SkipNonce = true }, "--insecure-oidc-skip-nonce=true"),
+		mk("allowed-group", func(c *c04Cfg) { c.AllowedGroups = []string{"Admins"} }, "--allowed-group=Admins"),
 		mk("extra-issuer-jwks-only", func(c *c04Cfg) {
 			c.ExtraIss, c.BearerOnly = jwksOnly, true
 			c.Verifiers = append(c.Verifiers, c04Verifier{Issuer: jwksOnly, ClientID: c04ExtraAudience, Extra: true})
@@ -165,7 +167,8 @@ var (
 	c04AudVals   = []string{"cid", "[cid]", "[other,cid]", "extra", "[other,extra]", "other", "[]", "missing", "number", "object", "[1]", "null", "cid-prefix", "CID", "extra-issuer-aud", "azp=cid", "azp=[other,cid]", "azp=other,aud=cid", "azp=number", "azp=[1,2]", "azp=object", "azp=[]", "azp=cid,aud=missing", "azp=[cid,1]", "empty-string", "azp=true", "azp=[other,7]"}
 	c04ExpVals   = []string{"+1h", "+5m", "-1h", "-90s", "missing", "string"}
 	c04EVVals    = []string{"absent", "true", "false", "str-false"}
-	c04ClaimVals = []string{"full", "no-email", "no-pu", "no-groups", "minimal", "unicode", "long", "groups-scalar", "groups-empty-list", "groups-empty-string", "pu-empty", "email-empty", "all-empty"}
+	c04ClaimVals = []string{"full", "no-email", "no-pu", "no-groups", "minimal", "unicode", "long", "groups-scalar", "groups-empty-list", "groups-empty-string", "pu-empty", "email-empty", "all-empty",
+		"groups-string-blanks", "groups-string-ctl", "groups-list-blanks", "groups-number", "groups-nested", "groups-object", "strings-with-blanks"}
 )
 
 // c04Baseline: a token that is valid under the configuration (for the primary issuer, or for the extra JWT issuer).
@@ -255,6 +258,10 @@ func c04TokenIdent(tag string, kind string) c04Ident {
 		id.Email = "ünï-" + tag + "@tök.test"
 		id.PU = "пользователь " + tag + " ✓"
 		id.Groups = []string{"grüppe/" + tag, "组", "a b", "x=y;z"}
+	case "strings-with-blanks":
+		id.Sub = "Sub With Blanks " + tag
+		id.Email = "First Last " + tag + "@Tok.Test"
+		id.PU = "Pu\twith tab, comma " + tag
 	case "long":
 		id.Email = strings.Repeat("l", 180) + "-" + tag + "@tok.test"
 		id.PU = strings.Repeat("p", 300) + tag
@@ -429,6 +436,20 @@ func c04Claims(s c04Spec, cfg *c04Cfg, idp2Issuer string, base map[string]interf
 		c[cfg.GroupsClaim] = []string{}
 		c["preferred_username"] = ""
 		c[cfg.EmailClaim] = ""
+	// shapes of the groups claim: a lone string is ONE group, verbatim — blanks, tabs, newlines and commas included;
+	// list elements keep their blanks; numbers / nested values are rendered as the docs say (decimal text, JSON text)
+	case "groups-string-blanks":
+		c[cfg.GroupsClaim] = "Helpdesk Admins " + tag
+	case "groups-string-ctl":
+		c[cfg.GroupsClaim] = "ops\tAdmins\nline2, Admins," + tag
+	case "groups-list-blanks":
+		c[cfg.GroupsClaim] = []string{"Help desk " + tag, "Site Admins", "x,y", " lead"}
+	case "groups-number":
+		c[cfg.GroupsClaim] = 42
+	case "groups-nested":
+		c[cfg.GroupsClaim] = []interface{}{[]interface{}{"Admins", "b"}, map[string]interface{}{"k": 1}, "p q", 7, true}
+	case "groups-object":
+		c[cfg.GroupsClaim] = map[string]interface{}{"Admins": true, "n": 1}
 	}
 	return c
 }
@@ -651,7 +672,9 @@ func c04Reference(t c04Token, cfg *c04Cfg, bearer bool) c04Ref {
 			// the converter for foreign issuers decodes the standard claims strictly (groups must be a list of strings);
 			// whether a token with a scalar groups claim is usable there is not decided by the statement
 			if g, has := t.Claims["groups"]; has {
-				if _, isList := g.([]interface{}); !isList {
+				if _, allStrings := c04StrList(g); !allStrings {
+					either++
+				} else if _, isList := g.([]interface{}); !isList {
 					either++
 				}
 			}
@@ -717,7 +740,29 @@ type c04Expect struct {
 	User, Email, Groups, PU c04Field
 }
 
-const c04Sep = "\x00"
+// lists are compared as JSON array text: element boundaries are part of the comparison
+func c04L(l []string) string {
+	if l == nil {
+		l = []string{}
+	}
+	b, _ := json.Marshal(l)
+	return string(b)
+}
+
+func c04UnL(s string) []string {
+	var l []string
+	_ = json.Unmarshal([]byte(s), &l)
+	return l
+}
+
+func c04HasCtl(s string) bool {
+	for _, r := range s {
+		if r < 0x20 || r == 0x7f {
+			return true
+		}
+	}
+	return false
+}
 
 // prevEmail (refresh path only): a refreshed token that has no e-mail claim, with no profile endpoint to supply one,
 // leaves the session's previous e-mail in place (documented in providers/oidc.go; an empty e-mail is never acceptable there).
@@ -730,17 +775,20 @@ func c04Expected(t c04Token, cfg *c04Cfg, v c04Verifier, path string, profile ma
 	field := func(name string, list bool) c04Field {
 		if val, ok := t.Claims[name]; ok && val != nil {
 			if list {
-				return c04Field{FromToken: true, Must: strings.Join(c04RenderList(val), c04Sep)}
+				return c04Field{FromToken: true, Must: c04L(c04RenderList(val))}
 			}
 			return c04Field{FromToken: true, Must: c04Render(val)}
 		}
 		f := c04Field{May: []string{""}}
+		if list {
+			f.May = []string{c04L(nil)}
+		}
 		if pv, ok := profile[name]; ok && profileAllowed {
 			b, _ := json.Marshal(pv)
 			var g interface{}
 			_ = json.Unmarshal(b, &g)
 			if list {
-				f.May = append(f.May, strings.Join(c04RenderList(g), c04Sep))
+				f.May = append(f.May, c04L(c04RenderList(g)))
 			} else {
 				f.May = append(f.May, c04Render(g))
 			}
@@ -957,6 +1005,33 @@ func (r *c04Runner) judge(cfg *c04Cfg, path string, s c04Spec, hdr string, t c04
 		run.Count(fmt.Sprintf("undecided_%s_session=%v", path, session), 1)
 	case c04OK:
 		run.Count("ref_accept_"+path, 1)
+		if len(cfg.AllowedGroups) > 0 {
+			// --allowed-group: the decision follows the token's groups exactly as the reference reads them
+			ex := c04Expected(t, cfg, cfg.Verifiers[ref.Verifier], path, profile, prevEmail).Groups
+			if !ex.FromToken {
+				if !session {
+					run.Count("allowed_group_token_without_groups_refused", 1)
+					return
+				}
+			} else {
+				member := false
+				for _, g := range c04UnL(ex.Must) {
+					for _, a := range cfg.AllowedGroups {
+						if g == a {
+							member = true
+						}
+					}
+				}
+				if !member {
+					run.Count("allowed_group_reference_denies", 1)
+					if session {
+						run.Violation("c04:allowed-group-decision-differs-from-token-groups:"+path, fmt.Sprintf("[%s] %s path: the token's groups claim reads %s — no element equals an allowed group %q — yet the request is served (userinfo groups %s) (%s)", cfg.Name, path, vfTrunc(ex.Must, 120), cfg.AllowedGroups, vfTrunc(c04L(obs.Groups), 120), s),
+							r.detail(cfg, path, s, hdr, t, ref, obs, ""))
+					}
+					return
+				}
+			}
+		}
 		if !session {
 			// callback without any e-mail (token and profile): the provider refuses the login — not decided by the statement
 			if ex := c04Expected(t, cfg, cfg.Verifiers[ref.Verifier], path, profile, prevEmail).Email; path == "callback" && ((!ex.FromToken && cfg.SkipProfile) || (ex.FromToken && ex.Must == "")) {
@@ -995,19 +1070,21 @@ func (r *c04Runner) judge(cfg *c04Cfg, path string, s c04Spec, hdr string, t c04
 	if obs.UserinfoCode == 200 {
 		chk("userinfo.user", exp.User, obs.User)
 		chk("userinfo.email", exp.Email, obs.Email)
-		chk("userinfo.groups", exp.Groups, strings.Join(obs.Groups, c04Sep))
+		chk("userinfo.groups", exp.Groups, c04L(obs.Groups))
 		chk("userinfo.preferredUsername", exp.PU, obs.PU)
 		run.Count("identity_compared_userinfo", 1)
 	}
 	if obs.UpHit {
 		chk("X-Forwarded-User", exp.User, obs.UpUser)
 		chk("X-Forwarded-Email", exp.Email, obs.UpEmail)
-		g := exp.Groups
-		g.Must = strings.ReplaceAll(g.Must, c04Sep, ",")
-		for k := range g.May {
-			g.May[k] = strings.ReplaceAll(g.May[k], c04Sep, ",")
+		// the header is the comma-joined list; not compared when a group contains control characters (not transmittable verbatim)
+		g := c04Field{FromToken: exp.Groups.FromToken, Must: strings.Join(c04UnL(exp.Groups.Must), ",")}
+		for _, m := range exp.Groups.May {
+			g.May = append(g.May, strings.Join(c04UnL(m), ","))
 		}
-		chk("X-Forwarded-Groups", g, obs.UpGroups)
+		if !c04HasCtl(g.Must) {
+			chk("X-Forwarded-Groups", g, obs.UpGroups)
+		}
 		chk("X-Forwarded-Preferred-Username", exp.PU, obs.UpPU)
 		run.Count("identity_compared_upstream", 1)
 	}
@@ -1435,9 +1512,9 @@ func (r *c04Runner) temporal(cfgs []*c04Cfg) {
 
 func TestVerif_C04(t *testing.T) {
 	run := vfNewRun(t, "C04", "exploration")
-	run.SetRule("token grid = signature (13 variants) x iss (11) x audience shape incl. custom audience claim (27) x exp (6) x email_verified (4) x claim set (13, incl. present-but-empty claims): " +
+	run.SetRule("token grid = signature (13 variants) x iss (11) x audience shape incl. custom audience claim (27) x exp (6) x email_verified (4) x claim set (20, incl. present-but-empty claims and groups as a lone string with blanks / tabs / newlines / commas, list elements with blanks, number, nested, object): " +
 		"every single deviation from a valid token, (thorough) every pair of deviations, plus a seeded random sample of combinations; on the callback, refresh and bearer " +
-		"(4 Authorization variants, incl. extra JWT issuer) paths; per configuration kind (discovery / JWKS URL / key file / extra audiences / audience claims / allow-unverified / custom claims / user-id-claim / no profile / extra issuer with and without discovery document / skip-nonce, cookie and Redis store). " +
+		"(4 Authorization variants, incl. extra JWT issuer) paths; per configuration kind (discovery / JWKS URL / key file / extra audiences / audience claims / allow-unverified / custom claims / user-id-claim / no profile / extra issuer with and without discovery document / allowed-group / skip-nonce, cookie and Redis store). " +
 		"cell = (path, configuration, which clause of V is the ONLY failing one + its variant) or (path, configuration, valid, audience shape, claim set); multi-failure cases are trivial. " +
 		"Temporal pairs: a token living 3-5 s is presented while valid and the same raw token again 1.5 s after its exp (bearer, per verifier; and through ValidateSession of a stale cookie session without refresh token)")
 	run.Assume("RSA verification of the reference uses crypto/rsa of the standard library", "the fake provider signs with one RSA key (kid k1); the extra issuer publishes the same key, so only iss/aud separate the two verifiers",
